@@ -35,9 +35,12 @@ def setup(ctx):
                 return r
             with core.monitor_scope():
                 ctx.call("si.post")
-                d = np.sort(np.asarray(data, dtype=float))
+                exact_int = np.asarray(data).dtype.kind in "iu"
+                d = np.sort(np.asarray(data)) if exact_int else np.sort(np.asarray(data, dtype=float))
                 lag = int(d.size * percent / 100)
-                rr = np.asarray(r, dtype=float).reshape(-1)      # (2,) or (2,1): "two data values" either way
+                rr = np.asarray(r).reshape(-1) if exact_int else np.asarray(r, dtype=float).reshape(-1)      # (2,) or (2,1): "two data values" either way
+                if exact_int and rr.dtype.kind == "f" and rr.shape == (2,) and np.all(np.isfinite(rr)) and np.all(rr == np.round(rr)):
+                    rr = np.array([int(v) for v in rr], dtype=object).astype(np.int64) if np.all(np.abs(rr) < 2.0 ** 63) else rr   # integer data returned as floats: compared as the integers they denote
                 ok = rr.shape == (2,) and np.all(np.isfinite(rr))
                 msg = f"shortest_int returned {core.jsonable(r)}"
                 if ok and 0 <= lag < d.size:
@@ -197,6 +200,8 @@ def w_shortest(ctx, rng, i):
         d = np.resize(d, n)
     elif kind == "integers":
         d = rng.integers(-20, 20, n).astype(float)
+        if i % 12 == 3:        # integer dtype, values beyond 2**53 (nanosecond timestamps): "two data values" means these integers, not their float neighbours
+            d = (rng.integers(0, 40, n) * int(rng.choice([1, 5, 7])) + 1_700_000_000_000_000_003).astype(np.int64)
     elif kind == "tiny_scale":
         d = rng.normal(0, 1, n) * 10 ** rng.uniform(-13, -10)
     else:
@@ -222,8 +227,13 @@ def w_shortest(ctx, rng, i):
         r = U.shortest_int(d, p)          # si.post decides
     ctx.check("si.input_unchanged", np.array_equal(d, keep), "shortest_int modified its input")
     d_s = np.sort(d)
-    r = np.asarray(r, dtype=float).reshape(-1)
-    inside = int(np.count_nonzero((d >= r[0]) & (d <= r[1])))
+    r = np.asarray(r).reshape(-1)
+    if d.dtype.kind in "iu":
+        lo_, hi_ = (int(r[0]), int(r[1])) if np.all(np.isfinite(np.asarray(r, float))) else (0, -1)
+        inside = int(np.count_nonzero((d >= lo_) & (d <= hi_)))
+    else:
+        r = r.astype(float)
+        inside = int(np.count_nonzero((d >= r[0]) & (d <= r[1])))
     ctx.check("si.covers", inside >= lag + 1, f"closed interval contains {inside} samples, fewer than lag+1={lag + 1}")
     ctx.case(("si", kind, n, "lag0" if lag == 0 else "lag1" if lag == 1 else "lagmax" if lag == n - 1 else "mid"), nontrivial=np.unique(d).size >= 2,
              sample={"kind": kind, "n": n, "percent": p, "lag": lag, "result": r} if i < 6 else None)
